@@ -11,6 +11,7 @@
   (which system calls fail, and how far a failing write got); every cut `k`; every crash outcome.
 -/
 import Lungo.Proofs.AtomicWritePhases
+import Lungo.Proofs.AtomicSearch
 import Lungo.Model.CommitStore
 namespace Lungo.C05
 open Lungo.FS Lungo.AtomicWrite
@@ -328,5 +329,99 @@ theorem neg_no_dir_fsync :
 /-- without the initial remove a stale temp file makes even a fault-free run fail (`rerun_after_crash` fails) -/
 theorem neg_no_remove :
     (interp noRemoveSteps 0 1 exChunks noFaults exS).err = true := by decide
+
+/-! ### Counterexample search on ANY step list (driver op `fs.search`, run on the list regenerated from /repo)
+
+  `AtomicSearch.search P` explores fault plan × cut × post-crash image of the interpreter on `P.steps` and
+  returns the first violation of atomicity / durability / failed-run / re-run (see `Model/AtomicSearch.lean`).
+  The theorems above are about the EXPECTED protocol; these say that what the search reports about the
+  CURRENT protocol is real in the model. -/
+
+open Lungo.AtomicSearch in
+/-- **search_ce_sound.** A counterexample returned by the search on the step list `P.steps` is real: its
+    post-crash state `ce.st` is reachable — it is the process-kill image or a power-loss outcome (`Crash`,
+    via `crashImages_sound`) of the interpreter on `P.steps` after the first `ce.k` system calls under the
+    fault plan `ce.fault` — and it violates the clause named by `ce.kind`:
+    * `notOldOrNew`: `path` loads as neither the old nor the new content (mixture / truncated / absent);
+    * `ackedLost`: the run had returned success, yet `path` does not load as the new content;
+    * `failedChanged`: the run had returned an error (no crash), yet `path` shows neither the old content nor —
+      provided a rename onto `path` had succeeded — the new one;
+    * `rerunFails`: a complete fault-free run of the same protocol started on `ce.st` returns an error or does
+      not leave the new content at `path`. -/
+theorem search_ce_sound (P : Params) (ce : CE) (h : search P = some ce) :
+    let r := interpUpTo P.steps P.path P.tmp P.chunks (faultsOf ce.fault) ce.k P.s0
+    (ce.st = kill r.1.fs ∨ Crash r.1.fs ce.st) ∧
+    (ce.kind = .notOldOrNew → load ce.st P.path ≠ P.old ∧ load ce.st P.path ≠ some P.chunks.flatten) ∧
+    (ce.kind = .ackedLost → r.2 = true ∧ r.1.err = false ∧ load ce.st P.path ≠ some P.chunks.flatten) ∧
+    (ce.kind = .failedChanged → r.2 = true ∧ r.1.err = true ∧ ce.st = kill r.1.fs ∧ load ce.st P.path ≠ P.old ∧
+      ¬ (renamed (traceUpTo P.steps P.path P.tmp P.chunks (faultsOf ce.fault) ce.k P.s0) = true ∧
+         load ce.st P.path = some P.chunks.flatten)) ∧
+    (ce.kind = .rerunFails →
+      (interp P.steps P.path P.tmp P.chunks noFaults ce.st).err = true ∨
+      load (interp P.steps P.path P.tmp P.chunks noFaults ce.st).fs P.path ≠ some P.chunks.flatten) := by
+  intro r
+  obtain ⟨hr, hv⟩ := search_sound P ce h
+  refine ⟨hr.crash, ?_, ?_, ?_, ?_⟩ <;> intro hk <;> simp only [CE.Violates, hk] at hv
+  · exact hv
+  · exact hv
+  · obtain ⟨h1, h2, h3, h4, h5⟩ := hv
+    refine ⟨h1, h2, ?_, h4, h5⟩
+    simp only [CE.Reachable, h3] at hr
+    exact hr
+  · exact hv
+
+open Lungo.AtomicSearch in
+/-- **search_ce_image.** The scenario printed with a counterexample is the one of its state: `ce.img = none` is
+    the process-kill image; `ce.img = some d` is the member of `crashImages` that keeps the pending directory
+    operations selected by `d.mask` and `d.len` of the temp inode's un-synced bytes (bit-flipped if `d.flipped`). -/
+theorem search_ce_image (P : Params) (ce : CE) (h : search P = some ce) :
+    let r := interpUpTo P.steps P.path P.tmp P.chunks (faultsOf ce.fault) ce.k P.s0
+    (ce.img = none → ce.st = kill r.1.fs) ∧
+    (∀ d, ce.img = some d → ce.st = crashImage r.1.fs d.mask (garbage r.1 d) ∧ ce.st ∈ crashImages r.1) := by
+  intro r
+  have hr := (search_sound P ce h).1
+  refine ⟨fun h0 => ?_, fun d hd => ?_⟩
+  · simp only [CE.Reachable, h0] at hr; exact hr
+  · simp only [CE.Reachable, hd] at hr; exact hr
+
+open Lungo.AtomicSearch in
+theorem search_expected_safe_0 :
+    (search (paramsOf Expected.atomicWriteSteps false ⟨none, [[1, 2]], false⟩)).isNone = true := by decide +kernel
+open Lungo.AtomicSearch in
+theorem search_expected_safe_1 :
+    (search (paramsOf Expected.atomicWriteSteps false ⟨some [1, 2, 3], [[9]], true⟩)).isNone = true := by decide +kernel
+open Lungo.AtomicSearch in
+theorem search_expected_safe_2 :
+    (search (paramsOf Expected.atomicWriteSteps false ⟨some [1], [[4], [5, 6]], false⟩)).isNone = true := by decide +kernel
+
+open Lungo.AtomicSearch in
+/-- **search_expected_safe** — a TEST (kernel evaluation by `decide +kernel` on the concrete shapes
+    `AtomicSearch.shapes`, which the stream's corpus fetches with `fs.shapes` and sends; NOT a general theorem —
+    the general guarantees for the expected protocol are `crash_old_or_new`, `durable_after_return`,
+    `fault_reports`, `rerun_after_fault`, `rerun_after_crash`): on the expected step list the search finds no
+    counterexample for any of these shapes. -/
+theorem search_expected_safe :
+    ∀ sh ∈ shapes, (search (paramsOf Expected.atomicWriteSteps false sh)).isNone = true := by
+  intro sh hs
+  simp only [shapes, List.mem_cons, List.not_mem_nil, or_false] at hs
+  rcases hs with rfl | rfl | rfl
+  · exact search_expected_safe_0
+  · exact search_expected_safe_1
+  · exact search_expected_safe_2
+
+/-! teeth of the search (kernel-evaluated examples): each mutated protocol of the section above yields a
+    counterexample of the expected kind on a corpus shape -/
+open Lungo.AtomicSearch in
+example : (search (paramsOf noFsyncSteps false ⟨some [1, 2, 3], [[9]], true⟩)).map (·.kind) = some .notOldOrNew := by decide +kernel
+open Lungo.AtomicSearch in
+example : (search (paramsOf renameFirstSteps false ⟨some [1, 2, 3], [[9]], true⟩)).map (·.kind) = some .notOldOrNew := by decide +kernel
+open Lungo.AtomicSearch in
+example : (search (paramsOf noDirSyncSteps false ⟨some [1, 2, 3], [[9]], true⟩)).map (·.kind) = some .ackedLost := by decide +kernel
+open Lungo.AtomicSearch in
+example : (search (paramsOf noRemoveSteps false ⟨some [1, 2, 3], [[9]], true⟩)).map (·.kind) = some .rerunFails := by decide +kernel
+open Lungo.AtomicSearch in
+/-- the expected calls applied IN PLACE (`tempPath := path`): the initial remove deletes the store file -/
+example : (search (paramsOf prog true ⟨some [1, 2, 3], [[9]], false⟩)).map (fun ce => (ce.kind, ce.k, ce.img)) =
+    some (.notOldOrNew, 1, none) := by decide +kernel
 
 end Lungo.C05
